@@ -618,8 +618,7 @@ func (c10Stream) Impl(c Case) string {
 		if err != nil {
 			return "harness-error connect: " + err.Error()
 		}
-		_ = oc.send(append(opFrame("bind", 1), Seq(Int(2, 2), P(1, 2, nil)).Ser()...))
-		_, _ = oc.readFrame(3 * time.Second)
+		_ = oc.send(Seq(Int(2, 2), P(1, 2, nil)).Ser())
 		other.tr.Wait("conn.gone", 1, -1, 5*time.Second)
 		oc.close()
 		other.finish()
